@@ -80,7 +80,20 @@ def run(ctx):
             continue
         seen.add(key)
         cfg = rng.choice([[False, False], [True, False], [False, True], [True, True]])
-        loads.append({"inp": inp, "cfg": cfg, "prefix": pre, "stream": rng.random() < 0.2})
+        # load() from a stream: BytesIO, an object that offers nothing but read(n), a buffered binary file object
+        loads.append({"inp": inp, "cfg": cfg, "prefix": pre, "stream": rng.choice([False] * 7 + [True, "readonly", "buffered"])})
+    # every length-prefixed opcode with length fields of every sign and size class, through each kind of stream
+    ops = {n: getattr(gb.opcode, n)[0] for n in dir(gb.opcode) if not n.startswith("_") and isinstance(getattr(gb.opcode, n), bytes)}
+    for name in ("BYTES", "PY2STRING", "PY3STRING", "UNICODE", "LONGINT", "NEWLIST", "BUILDTUPLE", "SET", "FROZENSET", "CHANNEL"):
+        if name not in ops:
+            continue
+        for n in (-1, -2, -129, -(2 ** 31), 3, 65536, 65537, 70000, 2 ** 24):
+            if n > 70000 and name not in ("BYTES", "PY2STRING", "PY3STRING", "UNICODE", "LONGINT"):
+                continue  # (a container that large is the known over-commit finding, not a question about the stream)
+            for tail in ([], [ops["STOP"]], [49, 50, 51, ops["STOP"]]):
+                inp = [2, ops[name]] + list((n % 2 ** 32).to_bytes(4, "big")) + tail
+                for kind in (False, True, "readonly", "buffered"):
+                    loads.append({"inp": inp, "cfg": [False, False], "prefix": False, "stream": kind})
     cases = sc.record(ctx, {"load": loads})["cases"]
     verdicts = sc.judge(ctx, cases)
     nontrivial = set()
